@@ -272,6 +272,9 @@ def clone_part(ctx):
             for mode in ('pick', 'fclone', 'vec'):
                 for mask in (ALL, rng.getrandbits(len(FIELDS)), 1 << rng.randrange(len(FIELDS))):
                     add_case(klass, feats, P, root, mode, mask, rng.choice([1, 1, 0]))
+            # the clone is made inside a nested buffer of the copy (level 1 / 2), same map
+            for lvl in (1, 2):
+                add_case(klass, feats, P, root, 'nest', lvl, rng.choice([1, 1, 1, 0]))
             # one builder over three build cycles, the map left installed across the reset (default / explicit emitter, reset / custom_reset flags)
             for ek, rk in ((1, 0), (rng.choice([0, 1]), rng.randrange(5))):
                 add_case(klass, feats, P, root, 'cycle', ek, rng.choice([1, 1, 0]), split=rk)
@@ -302,6 +305,8 @@ def clone_part(ctx):
     add_case('nested8', {'nested8'}, P, n, 'clone', ALL, 0)
     P = Prog(); s0 = P.add('S', '6869'); lf = P.add('LF', 'name=0,val=3', [s0]); n1 = P.add('N', 'id=1,name=0,leaf=1', (), {'name': [s0], 'leaf': [lf]})
     n2 = P.add('N', 'id=2,name=0,left=2,right=2,leaf=1', (), {'name': [s0], 'left': [n1], 'right': [n1], 'leaf': [lf]})
+    for lvl in (1, 2):
+        for use_map in (1, 0): add_case('nested_clone', set(), P, n2, 'nest', lvl, use_map)
     for ek in (1, 0):
         for rk in range(5):
             for use_map in (1, 0): add_case('reset_cycle', set(), P, n2, 'cycle', ek, use_map, split=rk)
@@ -356,11 +361,38 @@ def clone_part(ctx):
         n2 = P.add('N', 'id=2,name=0,left=2,right=2,leaf=1', (), {'name': [s], 'left': [n1], 'right': [n1], 'leaf': [lf]})
         add_case('fixed_diamond', set(), P, n2, 'clone', ALL, use_map, dumps=1)
 
+    # builder wrappers flatcc_builder_refmap_insert / _find at buffer nesting level 0, 1, 2 vs python dict and extracted model
+    wseqs = []
+    for k in range(90 if T else 24):
+        sq = U.gen_small(rng, 0x2f693b52, rng.choice([30, 120, 400]), dumps=False)
+        sq.ops = [o if o[0] == 'f' else ','.join(o.split(',')[:2]) + ',1' for o in sq.ops if o[0] in 'if']
+        sq.klass = 'wrapper_level_%d' % (k % 3)
+        wseqs.append((k % 3, sq))
+    wl = ['wseq %d %s' % (lvl, ' '.join(o if o[0] == 'f' else ','.join(o.split(',')[:2]) for o in sq.ops)) for lvl, sq in wseqs]
+    wres = U.run_capped(H, wl)
+    ml, mi = [], []
+    for (lvl, sq), line, rep in zip(wseqs, wl, wres):
+        ctx.count(line, klass=sq.klass)
+        irep = rep.split(' ')
+        bad = U.dict_oracle(sq, irep) if len(irep) == len(sq.ops) and not rep.startswith(('CRASH', 'ERR', 'SKIP')) else (0, 'reply', rep[:200])
+        if bad is not None:
+            kk, kind, msg = bad
+            ctx.violation('refmap-wrapper:level%d:%s' % (lvl, kind), 'flatcc_builder_refmap_insert / _find with an attached map while %d buffer(s) are open (nesting level %d) do not behave as a map: %s '
+                          '(operation %d `%s`)' % (lvl + 1, lvl, msg, kk, sq.ops[kk] if kk < len(sq.ops) else '?'), {'harness_line': ' '.join(line.split()[:kk + 3]), 'reply': rep[:2000]})
+            continue
+        ml.append(U.model_line(sq, irep)); mi.append((lvl, sq, irep, line))
+    if ml:
+        for (lvl, sq, irep, line), mrep in zip(mi, ctx.run_model('refmap', ml)):
+            for kk, (tok, a, b) in enumerate(zip(sq.ops, mrep.split(' '), irep)):
+                same, _ = U.compare_reply(tok, a, b)
+                if not same:
+                    ctx.violation('corr:refmap-wrapper:level%d' % lvl, 'builder wrapper vs extracted model at nesting level %d, operation %d `%s`: model %s, implementation %s' % (lvl, kk, tok, a[:60], b[:60]),
+                                  {'harness_line': ' '.join(line.split()[:kk + 3])}); break
     api = U.run_capped(H, ['api'])[0]
     ctx.count('api', klass='builder_refmap_api')
     if api != 'API ok':
         ctx.violation('refmap-builder-api', 'flatcc_builder_set_refmap / get_refmap / refmap_find / refmap_insert: %s (bits: 4/32/256/2048 wrong previous map, 8/64/512 a map lost or gained entries '
-                      'when installed or restored, 1/2 null-map wrappers, 16/128 find/insert go to the wrong map, 1024 get_refmap)' % api[:200], {'harness_line': 'api', 'reply': api[:1000]})
+                      'when installed or restored, 1/2 null-map wrappers, 16/128 find/insert go to the wrong map, 1024 get_refmap, 4096..65536 wrappers inside open / nested buffers: inserted then found with its reference at every nesting level, builder reset resets the map)' % api[:200], {'harness_line': 'api', 'reply': api[:1000]})
     lines = [c[7] for c in cases]
     chunks = [list(range(k, len(lines), 12)) for k in range(12)]
     import concurrent.futures as cf
@@ -429,7 +461,8 @@ def clone_part(ctx):
             if kv.get('share') != '1':
                 viol('sharing', 'with a reference map the copy does not share what the source shares: back references %s in the source, %s in the copy (%s)'
                      % (kv.get('back_src'), kv.get('back_dst'), mode)); continue
-            want = len(P.reachable_keys(root, mask, include_root=(mode == 'clone')))
+            if mode == 'nest': mask = ALL
+            want = len(P.reachable_keys(root, mask, include_root=(mode in ('clone', 'nest'))))
             if mode.startswith('old'): want = int(kv.get('map', -1))      # objects behind unknown members are not visited
             if int(kv.get('map', -1)) != want:
                 viol('memo', 'reference map holds %s entries after the clone, the source has %d distinct reachable objects (%s)' % (kv.get('map'), want, mode)); continue
